@@ -310,6 +310,57 @@ async def main(args):
             if r != "ok" or l > B:
                 out.violation("%s still failing after the stalled clients went away" % w, {"result": r, "latency_s": round(l, 2)})
                 break
+        # ---------------- phase 4: the collector has work while the access-log sink is stalled (a FIFO whose reader never
+        # drains it: stands for a hung disk or log collector). API calls and fresh connections must still complete.
+        import fcntl
+        import os
+        fifo = os.path.join(wd, "stalled-access.log")
+        os.mkfifo(fifo)
+        rfd = os.open(fifo, os.O_RDONLY | os.O_NONBLOCK)
+        try:
+            fcntl.fcntl(rfd, 1031, 4096)  # F_SETPIPE_SZ
+        except OSError:
+            pass
+        PL = {k: free_port() for k in ("http", "socks", "api")}
+        L = Proxy(args.bin, base_cfg([{"name": "http", "bind": "127.0.0.1:%d" % PL["http"]}, {"name": "socks", "bind": "127.0.0.1:%d" % PL["socks"]}],
+                                     [{"name": "direct"}], rules, metrics_port=PL["api"], access_log={"path": fifo, "format": "json"}), "L", wd)
+        try:
+            await L.start()
+            n_short = 1200 if args.thorough else 400
+            done = 0
+            for i in range(n_short):
+                try:
+                    c = await open_conn("127.0.0.1", PL["http"] if i % 2 else PL["socks"])
+                    if i % 2:
+                        await asyncio.wait_for(http_connect(c, "127.0.0.1", origin.port), B + 8)
+                    else:
+                        await asyncio.wait_for(socks5_connect(c, "127.0.0.1", origin.port), B + 8)
+                    c.close()
+                    done += 1
+                except Exception:
+                    break
+            await asyncio.sleep(2.5)  # at least two collector rounds
+            out.setx("log_stall_short_connections", done)
+            lres = []
+            for m, pth in (("GET", "/live"), ("GET", "/history"), ("GET", "/status"), ("GET", "/rules")):
+                r, l = await api_call(L, m, pth, rules_doc, B + 8)
+                lres.append(("api %s %s" % (m, pth), r, l))
+            for k in ("http", "socks5"):
+                r, l = await probe(k, dict(P, http=PL["http"], socks=PL["socks"]), origin.port, B + 8)
+                lres.append(("tunnel via " + k, r, l))
+            for (w, r, l) in lres:
+                out.case()
+                cls = "ok" if (r == "ok" and l <= B) else ("slow" if r == "ok" else r)
+                out.nontrivial(("log-stalled", w, cls))
+                if cls != "ok":
+                    out.violation("%s does not complete within its bound while the access-log sink is stalled" % w,
+                                  {"what": w, "class": cls, "latency_s": round(l, 2), "bound_s": round(B, 2), "short_connections_before": done})
+            if not L.alive():
+                out.violation("proxy process died", {"proxy": "L", "rc": L.exit_status(), "stderr": L.stderr_tail(600)})
+            out.sample({"phase": "log-stalled", "short_connections": done, "results": [(w, r, round(l, 3)) for (w, r, l) in lres]})
+        finally:
+            L.kill()
+            os.close(rfd)
         for p in (A, C, S):
             if not p.alive():
                 out.violation("proxy process died", {"proxy": p.name, "rc": p.exit_status(), "stderr": p.stderr_tail(600)})
